@@ -87,7 +87,10 @@ fn alphabet(bytes: &[u8], declared: u64) -> Vec<Call> {
     let mut v = vec![Call::Accessors];
     for &t in tids.iter() {
         v.push(Call::Count(t));
-        let n = r.sample_count(t).unwrap_or(1).min(4);
+        let n = match r.sample_count(t).unwrap_or(1) {
+            c if c <= 32 => c, // short tracks: every sample id
+            _ => 4,
+        };
         let mut ks: Vec<u32> = (0..=n + 1).collect();
         ks.push(u32::MAX);
         for k in ks {
@@ -255,6 +258,26 @@ pub fn run(tier: Tier, seed: u64) -> i32 {
         let h = vec![Op { track: 1, size: 3, dur: 600, off: 0, sync: true }, Op { track: 2, size: 2, dur: 43200, off: 0, sync: true }, Op { track: 3, size: 0, dur: 3, off: 0, sync: true }, Op { track: 3, size: 4, dur: 4, off: 0, sync: true }];
         match mux(seed, &m, &h) {
             Ok(o) => files.push(("mux:movie-timescale-1,three-short-tracks".into(), o.bytes)),
+            Err(e) => machinery_failure(&format!("C15 file does not mux: {}", e)),
+        }
+    }
+    {
+        // aliased chunk offsets: three chunks of ten variable-size samples, the third chunk stored at the file offset of the
+        // first (legal: chunks may share data) — lookups in one chunk must not depend on earlier lookups in the other
+        let m = MovieSpec::new(1000, vec![TrackSpec::new(Kind::Ttxt, 1000)]);
+        let h: Vec<Op> = (0..30u32).map(|i| Op { track: 1, size: 1 + (i * 7 + i / 10) % 5, dur: 100, off: 0, sync: true }).collect();
+        match mux(seed, &m, &h) {
+            Ok(o) => {
+                let mut b = o.bytes;
+                match b.windows(4).position(|w| w == b"stco") {
+                    Some(p) if u32::from_be_bytes([b[p + 8], b[p + 9], b[p + 10], b[p + 11]]) == 3 => {
+                        let first: [u8; 4] = [b[p + 12], b[p + 13], b[p + 14], b[p + 15]];
+                        b[p + 20..p + 24].copy_from_slice(&first);
+                    }
+                    _ => machinery_failure("C15 aliased-chunk file: expected one stco with 3 entries"),
+                }
+                files.push(("mux:ttxt,3 chunks of 10,third chunk aliased to the first".into(), b));
+            }
             Err(e) => machinery_failure(&format!("C15 file does not mux: {}", e)),
         }
     }
